@@ -828,6 +828,14 @@ def streams(ctx):
             src = pool
         xs = [clone(srng.choice(src)) for _ in range(k)]
         sort_cases.append(xs)
+    # host-type pitfalls: arrays drawn from only two neighbouring Python classes (bool is an int; int vs float; str only;
+    # date vs datetime) - a "fast path" keyed on isinstance would order these by Python's rules instead of value_compare
+    pit_sources = [[True, False, 0, 1, 2, 0.5, 1.0, -1], [True, False, 0.0, 2.0, 0.5], [True, False], ['b', 'a', '', 'B', 'aa'],
+                   [0, 1, 2, -1, 10**15], [datetime.date(2020, 1, 2), datetime.datetime(2020, 1, 1, 5), datetime.date(2019, 12, 31)],
+                   [None, True, 0], [None, False, 0.0, '']]
+    for _ in range(ctx.scale(300, 4000)):
+        src = srng.choice(pit_sources)
+        sort_cases.append([srng.choice(src) for _ in range(srng.choice([2, 3, 4, 6, 9]))])
     resps = ctx.driver.batch([{'op': 'sort', 'xs': [enc(v) for v in xs]} for xs in sort_cases])
     for xs, resp in zip(sort_cases, resps):
         st3.case([digest(enc(v)) for v in xs], nontrivial=len(xs) >= 2, tags=[f'len{bucket(len(xs))}'])
